@@ -365,7 +365,7 @@ fn all_cases(quick: bool, seed: u64) -> Vec<CaseR> {
     }
     // random templates with several references, at most one of them dangling
     let mut rng = Rng::new(seed);
-    let n_random = if quick { 400 } else { 40_000 };
+    let n_random = if quick { 600 } else { 400_000 };
     for i in 0..n_random {
         let prefixed = rng.chance(1, 3);
         let mut set = base_set(prefixed);
@@ -398,7 +398,35 @@ fn all_cases(quick: bool, seed: u64) -> Vec<CaseR> {
         if bad_at.is_some_and(|b| b >= counter) {
             bad_at = None;
         }
-        cases.push(CaseR { label: format!("random #{i} {}", if bad_at.is_some() { "dangling" } else { "valid" }), prefixes: if prefixed { vec!["th/".into()] } else { vec![] }, steps: vec![set] });
+        let mut steps = vec![set];
+        // half of them go on as a history: the component provider `r` re-registered without / with
+        // `K`, a template re-registered with other references, a new template
+        if rng.chance(1, 2) {
+            for j in 0..(1 + rng.below(3)) {
+                let step = match rng.below(4) {
+                    0 => RTpl { name: "r".into(), block_x: true, defines: vec![], tag: format!("h{j}"), ..Default::default() },
+                    1 => RTpl { name: "r".into(), block_x: true, defines: vec!["K".into()], tag: format!("h{j}"), ..Default::default() },
+                    _ => {
+                        let mut t = RTpl { name: format!("t{}", rng.below(4)), tag: format!("h{j}"), ..Default::default() };
+                        for _ in 0..(1 + rng.below(2)) {
+                            let kind = KINDS[rng.below(5)];
+                            let loc = LOCS[rng.below(6)];
+                            if snippet(&site(kind, "x", loc)).is_none() {
+                                continue;
+                            }
+                            let name = if rng.chance(1, 4) { bad_name(kind) } else { good_name(kind) };
+                            if loc == "block" {
+                                t.block_x = true;
+                            }
+                            t.sites.push(site(kind, name, loc));
+                        }
+                        t
+                    }
+                };
+                steps.push(vec![step]);
+            }
+        }
+        cases.push(CaseR { label: format!("random #{i} {}{}", if bad_at.is_some() { "dangling" } else { "valid" }, if steps.len() > 1 { " + history" } else { "" }), prefixes: if prefixed { vec!["th/".into()] } else { vec![] }, steps });
     }
     cases
 }
